@@ -17,6 +17,7 @@ import (
 	"net/http/httptest"
 	"os"
 	"path/filepath"
+	"regexp"
 	"sort"
 	"strings"
 	"testing"
@@ -89,16 +90,16 @@ type rep struct {
 	Config   string
 }
 
+var goLangRE = regexp.MustCompile(`^go([1-9][0-9]*|0)\.([1-9][0-9]*|0)`)
+
+// goMajMin is the Go language version of a toolchain version, as the Go
+// documentation defines it: go1.21.5, go1.21rc2 and go1.21 are all go1.21.
 func goMajMin(v string) string {
-	// go1.21.5 -> go1.21
-	if !strings.HasPrefix(v, "go") {
+	m := goLangRE.FindStringSubmatch(v)
+	if m == nil {
 		return ""
 	}
-	parts := strings.SplitN(v[2:], ".", 3)
-	if len(parts) < 2 {
-		return ""
-	}
-	return "go" + parts[0] + "." + parts[1]
+	return "go" + m[1] + "." + m[2]
 }
 
 func scenarioC13(c *hlib.RunCtx) *hlib.Violation {
@@ -130,7 +131,7 @@ func scenarioC13(c *hlib.RunCtx) *hlib.Violation {
 	// configuration
 	ucfg := &telemetry.UploadConfig{
 		GOOS: []string{"linux", "darwin", "windows"}, GOARCH: []string{"amd64", "arm64"},
-		GoVersion: []string{"go1.21.0", "go1.21.5", "go1.22.1", "go1.23.0"},
+		GoVersion: []string{"go1.21.0", "go1.21.5", "go1.22.1", "go1.23.0", "go1.21rc2", "go1.22beta1"},
 		Programs: []*telemetry.ProgramConfig{
 			{Name: "example.com/gopls", Versions: []string{"v0.14.0", "v0.15.0", "v0.15.1"},
 				Counters: []telemetry.CounterConfig{{Name: "editor:{vscode,vim,emacs}", Rate: 1}, {Name: "plain", Rate: 1}}},
